@@ -189,7 +189,24 @@ def check_rest(ctx, P, tx, rx, ms):
     for b, i, s in stmts(rx):
         if "a" in s and has_field(s["a"], "last_events", "DpEvents"):
             v = simplify(rtb.rvalue(s["rv"]))
-            ok = v[0] == "agg" and M.mentions(v[3][1], M.t_call("dp::peripheral::Peripheral::receive_reply")) and M.mentions(v[3][0], M.t_call("increment_cycle_state"))
+            def from_reply(t, depth=0):
+                """the stored event is the event of Peripheral::receive_reply - directly, or through a variable every definition of
+                which is `None` or built from that event (`event.map(|ev| (handle, ev))` written out as a match)"""
+                if M.mentions(t, M.t_call("dp::peripheral::Peripheral::receive_reply")):
+                    return True
+                t = strip_refs(t)
+                if t[0] == "local" and depth < 3:
+                    some = 0
+                    for d in rtb.defs.get(t[1], ()):
+                        dv = rtb.rvalue(rx.blocks[d[1]].stmts[d[2]]["rv"]) if d[0] == "stmt" else rtb.call_term(rx.blocks[d[1]].term["call"])
+                        if dv[0] == "agg" and dv[2] == "None":
+                            continue
+                        if not from_reply(dv, depth + 1):
+                            return False
+                        some += 1
+                    return some >= 1
+                return False
+            ok = v[0] == "agg" and from_reply(v[3][1]) and M.mentions(v[3][0], M.t_call("increment_cycle_state"))
             ctx.ob("d.accounting", "reply-event-flow", ok, "the reply path must store (cycle_completed = iteration result, peripheral = event of Peripheral::receive_reply), found " + show(v)[:200], rx.loc(b, i))
     # ---------------- a': what the slot iteration stores --------------------------------------------
     inc = P.get(CR, "dp::master::DpMaster::<'a>::increment_cycle_state")
